@@ -9,7 +9,7 @@ identifiers and keywords of the module, f-strings with real uses, blank lines, c
 """
 
 V = ["a", "b", "c", "x", "y"]
-FN = ["g", "h", "p"]
+FN = ["f", "g", "h"]
 CL = ["A", "B", "K"]
 ATTRS = ["x", "y", "n"]
 MODS = ["ext", "lib.util", "other"]
@@ -22,10 +22,13 @@ FEATURES = (
     "kwunres",      # keyword argument of a callee without a known signature, spelled like a variable in scope
     "imports2",     # one spelling imported from unresolvable modules in two scopes
     "paramrebound",  # a def with defaulted parameters whose name is rebound later
-    "tuplekw",      # unparenthesised tuple target: its last name looks like a keyword argument
-    "genexp",       # generator expression as the sole argument of a call
-    "eofimport",    # the module ends with `from m import name` without a newline
-    "strprefix",    # a function called f in a module with f-strings
+    # productions that used to leave the domain and are inside it since the repairs in /repo (kept: they exercise the
+    # repaired code on every run)
+    "tuplekw",      # unparenthesised tuple target: its last name is preceded by ',' and followed by '='  (9405717)
+    "genexp",       # generator expression as the sole argument of a call                                 (61b2b10)
+    "eofimport",    # the module ends with `from m import name` without a newline                          (b5db6ac)
+    "strprefix",    # a function called f in a module with f-strings                                       (417bae9)
+    "indentimport",  # `import m as v` inside a function that has a variable m                             (49ab4fe)
 )
 
 
@@ -268,6 +271,14 @@ class Gen:
             self.emit(ind, "print(%s)" % self.expr(sc))
 
     def import_stmt(self, sc, ind):
+        if "indentimport" in self.f and ind > 0 and self.chance(0.6):
+            vs = [v for v in self.visible(sc) if v in V]
+            al = [a for a in ("al1", "al2") if a not in self.imported]
+            if vs and al:
+                self.emit(ind, "import %s as %s" % (self.pick(vs), al[0]))
+                self.imported.add(al[0])
+                self.bind(sc, al[0])
+                return
         free = [v for v in V + ["ext", "other"] if v not in self.imported
                 and v not in sc.bound and v not in sc.params and v not in sc.globals
                 and (sc.kind != "module" or v not in self.mod_names)]
@@ -332,8 +343,6 @@ class Gen:
                 if not cands:
                     return
                 name = self.pick(cands)
-                if "strprefix" in self.f and "f" not in self.funcs and "f" not in self.mod_names:
-                    name = "f"
             else:
                 name = self.pick(["inner", "helper"] + FN)
         pool = list(V)
